@@ -57,6 +57,7 @@ deriving Repr, DecidableEq, Inhabited
 /-- facts about an OracleResponse attribute that the attribute check reads (blockchain.go:3038-3069);
 the ones derivable from the signers are computed, not given. -/
 structure OracleFacts where
+  id : Nat               -- resp.ID (the request the response answers)
   scriptOk : Bool        -- tx.Script equals the oracle response script
   requestOk : Bool       -- GetRequestInternal(resp.ID) succeeds
   gasForResponse : Nat
@@ -248,28 +249,6 @@ def admit (c : Chain) (p : Pool) (t : Tx) : Option Err :=
 def admitWire (c : Chain) (p : Pool) (t : Tx) : Option Err :=
   if !wellFormed t then some .malformed else admit c p t
 
-/-! ### block packing: `ApplyPolicyToTxSet` (blockchain.go:2840-2874) -/
-
-/-- the limits and the size of a block without transactions and without the transaction count prefix
-(`GetExpectedBlockSizeWithoutTransactions(0) - 1` for the default block witness and the header template,
-whose `StateRootEnabled` follows `StateRootInHeader` since fix 2cbe22b). -/
-structure PackCfg where
-  maxTx : Nat            -- MaxTransactionsPerBlock, 0 = unlimited
-  maxBlockSize : Nat
-  maxBlockSysFee : Nat
-  overhead : Nat
-
-/-- the loop over (size, system fee) pairs: stop before the first transaction that breaks a limit. -/
-def packLoop (cfg : PackCfg) : Nat → Nat → List (Nat × Nat) → List (Nat × Nat)
-  | _, _, [] => []
-  | size, fee, t :: ts =>
-    let size' := size + t.1
-    let fee' := fee + t.2
-    if size' > cfg.maxBlockSize ∨ fee' > cfg.maxBlockSysFee then [] else t :: packLoop cfg size' fee' ts
-
-/-- `ApplyPolicyToTxSet` on the pool's transactions in pool order, as (size, system fee) pairs. -/
-def applyPolicy (cfg : PackCfg) (txs : List (Nat × Nat)) : List (Nat × Nat) :=
-  let txs := if cfg.maxTx ≠ 0 ∧ txs.length > cfg.maxTx then txs.take cfg.maxTx else txs
-  packLoop cfg (cfg.overhead + NeoModel.Wire.varUintSize txs.length) 0 txs
+/-! Block packing (`ApplyPolicyToTxSet`) and the checks run on a packed block: `Model/Fees/Block.lean`. -/
 
 end NeoModel.Admission
